@@ -1259,16 +1259,23 @@ int32 psPkcs12ParseMem(psPool_t *pool, psX509Cert_t **cert, psPubKey_t *privKey,
             psTraceCrypto("Algorithm password integrity parse failure\n");
             goto ERR_PARSE;
         }
-        if ((*p++ != ASN_OCTET_STRING) ||
+        if (end - p < 1 || (*p++ != ASN_OCTET_STRING) ||
             getAsnLength(&p, (int32) (end - p), &tmplen) < 0)
         {
             psTraceCrypto("Octet digest password integrity parse failure\n");
             rc = PS_PARSE_FAIL;
             goto ERR_PARSE;
         }
+        /* digest[] holds a SHA-1 value (the only MAC supported below) */
+        if (tmplen != sizeof(digest) || (uint32) (end - p) < tmplen)
+        {
+            psTraceCrypto("Unsupported PKCS#12 MAC digest length\n");
+            rc = PS_PARSE_FAIL;
+            goto ERR_PARSE;
+        }
         Memcpy(digest, p, tmplen);
         p += tmplen;
-        if ((*p++ != ASN_OCTET_STRING) ||
+        if (end - p < 1 || (*p++ != ASN_OCTET_STRING) ||
             getAsnLength(&p, (int32) (end - p), &tmplen) < 0)
         {
             psTraceCrypto("Octet macSalt password integrity parse failure\n");
